@@ -413,7 +413,7 @@ def classify_exc(e: BaseException) -> str:
     return "exc:" + type(e).__name__ + ":" + str(e)[:120]
 
 
-def run_real(proto: onnx.ModelProto, specs: list[dict], mode: str, limit: float = 3.0):
+def run_real(proto: onnx.ModelProto, specs: list[dict], mode: str, limit: float = 3.0, commute: bool = False):
     """('OK', count|None, ModelProto) or ('ERR', kind, None); rules are rebuilt for every run."""
     from onnxscript import ir
     from onnxscript.rewriter import RewriteRuleSet, rewrite
@@ -431,9 +431,9 @@ def run_real(proto: onnx.ModelProto, specs: list[dict], mode: str, limit: float 
         with time_limit(limit):
             if mode == "apply":
                 m = ir.serde.deserialize_model(proto)
-                cnt = RewriteRuleSet(rules).apply_to_model(m)
+                cnt = RewriteRuleSet(rules, commute=commute).apply_to_model(m)
                 return "OK", cnt, ir.serde.serialize_model(m)
-            out = rewrite(proto, rules)
+            out = rewrite(proto, RewriteRuleSet(rules, commute=True) if commute else rules)
             return "OK", None, out
     except BaseException as e:  # noqa: BLE001
         if isinstance(e, (KeyboardInterrupt, SystemExit)):
@@ -455,9 +455,17 @@ class HostGen:
         self.with_cond = with_cond
         self.meta_p = meta_p
         self.hist = {}
+        self.gaps = False   # some values are named val_<k> (the names the rewriter itself hands out), with gaps
+        self.used = set()
 
     def name(self, p="t"):
         self.k += 1
+        if p == "t" and self.gaps and self.rng.random() < 0.12:
+            cand = f"val_{self.rng.randint(1, 6)}"
+            if cand not in self.used:
+                self.used.add(cand)
+                self.hist["val_named"] = self.hist.get("val_named", 0) + 1
+                return cand
         return f"{p}{self.k}"
 
     def pick(self, avail):
@@ -522,6 +530,7 @@ class HostGen:
 
 def gen_host(rng, size: int, with_funcs: bool, with_cond: bool, extra_inits: list[str] = ()):
     hg = HostGen(rng, with_funcs, with_cond)
+    hg.gaps = rng.random() < 0.35
     inputs = [VT("x"), VT("y")]
     avail = ["x", "y"]
     inits = []
